@@ -20,6 +20,8 @@ import PolyVerif.Lemmas.SolidsTopo
 import PolyVerif.Lemmas.SolidsLoopsV
 import PolyVerif.Lemmas.SolidsUmbrella
 import PolyVerif.Lemmas.SolidsUmbrella2
+import PolyVerif.Lemmas.SolidsAssembly
+import PolyVerif.Lemmas.SolidsTopo2
 import PolyVerif.Gen.CubeTable
 import Mathlib.Tactic
 
@@ -135,6 +137,38 @@ theorem cylinderSide_positions_from_source (radius height : α) (sides : Nat) {v
   have hn : Gen.PrimLoops.cylinder.nrm = some (1, false) := rfl
   simp only [Prog.normals, hn, Option.map_some, Bool.false_eq_true, if_false, h]
 
+/-- **the six-quad box is built as cube.go says**: `Gen/PrimAssembly.lean` (regenerated: the six `Quad{Width, Depth}` faces
+    of `Cube.UnweldedQuads` in `Append` order, each with its `rotate(…, FromTheta(θ, axis))` and `Translate`, the structure
+    of the helper `rotate`, and quad.go's four positions / normals) interpreted with the regenerated quaternion code gives
+    exactly `cubeQuadsPosCode` / `cubeQuadsNormalCode` — the functions the corner table, merge-exactness, outwardness,
+    normals and volume theorems of the six-quad box are about -/
+theorem cubeQuads_construction_from_source (w h d : α) {v : Nat} (hv : v < cubeQuadsNV) :
+    assembleQuads Gen.PrimAssembly.cubeFaces Gen.PrimAssembly.cubeLocals Gen.PrimAssembly.quadLocals
+        Gen.PrimAssembly.quadPositions false w h d v = cubeQuadsPosCode w h d v ∧
+    assembleQuads Gen.PrimAssembly.cubeFaces Gen.PrimAssembly.cubeLocals Gen.PrimAssembly.quadLocals
+        Gen.PrimAssembly.quadNormals true w h d v = cubeQuadsNormalCode v :=
+  ⟨quads_pos_from_source w h d hv, quads_nrm_from_source w h d hv⟩
+
+/-- **the cylinder's caps are placed as cylinder.go says**: top cap = the circle translated by `(0, halfHeight, 0)`, bottom cap =
+    the circle rotated (positions and normals) by `quaternion.FromTheta(math.Pi, (1,0,0))` and translated by
+    `(0, −halfHeight, 0)` — the extracted `cylinderCaps`, with `halfHeight` read off the extracted cylinder program —
+    is exactly `cylinderPosCode` / `cylinderNormalCode` -/
+theorem cylinder_assembly_from_source (radius height : α) (sides v : Nat) :
+    cylinderPosCode radius height sides v =
+      (let fpar : Nat → α := fun k => [radius, height].getD k ((0 : Nat) : α)
+       let fenv := Gen.PrimLoops.cylinder.finalFenv [sides] [radius, height]
+       if v < 2 * sides + 2 then cylinderPos radius height sides v
+       else if v < 3 * sides + 3 then
+         capPos Gen.PrimAssembly.cylinderCaps 0 fpar fenv (circlePos radius sides (v - (2 * sides + 2)))
+       else capPos Gen.PrimAssembly.cylinderCaps 1 fpar fenv (circlePos radius sides (v - (3 * sides + 3)))) ∧
+    (cylinderNormalCode sides v : V3 α) =
+      (let fpar : Nat → α := fun k => [radius, height].getD k ((0 : Nat) : α)
+       let fenv := Gen.PrimLoops.cylinder.finalFenv [sides] [radius, height]
+       if v < 2 * sides + 2 then cylinderNormal sides v
+       else if v < 3 * sides + 3 then capNrm Gen.PrimAssembly.cylinderCaps 0 fpar fenv circleNormal
+       else capNrm Gen.PrimAssembly.cylinderCaps 1 fpar fenv circleNormal) :=
+  ⟨cyl_caps_pos_from_source radius height sides v, cyl_caps_nrm_from_source radius height sides v⟩
+
 end FromSource
 
 /-- the panics: the extracted guards of `UVSphere`, `Hemisphere.UV`, `Circle.ToMesh` are the model's admissibility -/
@@ -234,6 +268,25 @@ theorem cubeQuads_vertexManifold_connected_mod_merge :
 theorem uvSphere_connected {rows cols : Nat} (hR : 2 ≤ rows) (hC : 3 ≤ cols) {v : Nat} (hv : v < uvSphereNV rows cols) :
     Relation.ReflTransGen (fun a b => (a, b) ∈ edges (uvSphereTris rows cols)) 0 v :=
   uvSphere_reach hR hC hv
+
+/-- the hemisphere is connected, all sizes -/
+theorem hemisphere_connected {rows cols : Nat} (hR : 2 ≤ rows) (hC : 3 ≤ cols) {v : Nat} (hv : v < uvSphereNV rows cols) :
+    Relation.ReflTransGen (fun a b => (a, b) ∈ edges (hemisphereTris rows cols)) 0 v :=
+  hemisphere_reach hR hC hv
+
+/-- the unwelded sphere modulo its copy map is connected, all sizes (merged, it is the welded sphere) -/
+theorem uvSphereUnwelded_connected_mod_merge {rows cols : Nat} (hR : 2 ≤ rows) (hC : 3 ≤ cols) {v : Nat}
+    (hv : v < uvSphereNV rows cols) :
+    Relation.ReflTransGen (fun a b => (a, b) ∈
+      edges ((uvSphereUnweldedTris rows cols).map (tmap (uvUnweldedSrc rows cols)))) 0 v := by
+  rw [uvUnwelded_map_src]; exact uvSphere_reach hR hC hv
+
+/-- **the capped cylinder modulo its merge map is connected, all side counts `≥ 3`**: every merged vertex is reached
+    from the top cap's centre `(0,0)` along directed edges (symmetric by `cylinder_closed_mod_merge`) -/
+theorem cylinder_connected_mod_merge {sides : Nat} (hS : 3 ≤ sides) {v : Nat} (hv : v < cylinderNV sides false false) :
+    Relation.ReflTransGen (fun a b => (a, b) ∈ edges ((cylinderTris sides false false).map (tmap (cylinderPt sides))))
+      (0, 0) (cylinderPt sides v) :=
+  cylinder_reach_mod_merge hS hv
 
 example : Relation.ReflTransGen (fun a b => (a, b) ∈ edges (uvSphereTris 4 5)) 0 16 :=
   uvSphere_connected (by decide) (by decide) (by decide)
